@@ -10,6 +10,7 @@ import (
 	"context"
 	"errors"
 	"fmt"
+	"sort"
 	"sync"
 
 	p9p "github.com/frobnitzem/go-p9p"
@@ -165,6 +166,14 @@ func (r *runner) fsStep(lab string, act func()) {
 			r.reqs[iv.rid].released = true
 		}
 		fins = append(fins, sx.L(sx.Sym("fin"), sx.I(int64(iv.rid)), s))
+		if iv.rid >= 0 {
+			r.comp = append(r.comp, sx.L(sx.Sym("fin"), sx.I(int64(iv.rid))))
+		} else {
+			r.compSkip = true
+		}
+	}
+	if len(fins) > 1 {
+		r.compSkip = true // several handlers returned in one step: their order is not observed
 	}
 	if len(fins) == 1 {
 		action = fins[0]
@@ -198,6 +207,14 @@ func runFS(rng *prng.R, directed bool) *runner {
 		r.reqs = append(r.reqs, q)
 		w.cn.feed(frameBytes(tag, msg))
 		r.observe(sx.L(sx.Sym("send"), sx.I(int64(rid)), sx.U(uint64(tag)), sx.L(sx.Sym("req"), sx.B(q.payload))), "send-normal", q)
+		switch m := msg.(type) {
+		case p9p.MessageTattach:
+			r.comp = append(r.comp, sx.L(sx.Sym("send"), sx.I(int64(rid)), sx.U(uint64(tag)), sx.Sym("attach"), sx.U(uint64(m.Fid))))
+		case p9p.MessageTwalk:
+			r.comp = append(r.comp, sx.L(sx.Sym("send"), sx.I(int64(rid)), sx.U(uint64(tag)), sx.Sym("walk"), sx.U(uint64(m.Fid)), sx.U(uint64(m.Newfid)), sx.I(int64(len(m.Wnames)))))
+		default:
+			r.compSkip = true
+		}
 		return q
 	}
 	openGate := func(q *req) {
@@ -252,10 +269,13 @@ func runFS(rng *prng.R, directed bool) *runner {
 	switch rng.Intn(3) {
 	case 0:
 		r.ctxCancel()
+		r.comp = append(r.comp, sx.L(sx.Sym("fault"), sx.Sym("ctx")))
 	case 1:
 		r.connerr(true)
+		r.comp = append(r.comp, sx.L(sx.Sym("fault"), sx.Sym("conn")))
 	default:
 		r.connerr(false)
+		r.comp = append(r.comp, sx.L(sx.Sym("fault"), sx.Sym("conn")))
 	}
 	// everything in flight returns, one at a time
 	fs.setHold(true)
@@ -301,6 +321,50 @@ func runFS(rng *prng.R, directed bool) *runner {
 				}
 			}
 			fs.mu.Unlock()
+		}
+		// the session-level history of this run and what it left behind, for the composed model
+		// (Model/ServeSession.v through Run/RunC11.v): only when every dispatched handler has returned
+		allBack := true
+		for _, q := range r.reqs {
+			iv := w.byRid[q.rid]
+			if !q.dispatched || iv == nil {
+				allBack = false
+				continue
+			}
+			w.mu.Lock()
+			if !iv.done {
+				allBack = false
+			}
+			w.mu.Unlock()
+		}
+		if ok && allBack && !r.compSkip {
+			var bound []int
+			for _, e := range tab {
+				if e.Bound || e.Locked {
+					bound = append(bound, int(e.Fid))
+				}
+			}
+			sort.Ints(bound)
+			var rel []int
+			fs.mu.Lock()
+			for _, e := range fs.ents {
+				rel = append(rel, e.releases)
+			}
+			fs.mu.Unlock()
+			sort.Ints(rel)
+			bs := []sx.S{sx.Sym("bound")}
+			for _, f := range bound {
+				bs = append(bs, sx.I(int64(f)))
+			}
+			rs := []sx.S{sx.Sym("rel")}
+			for _, n := range rel {
+				rs = append(rs, sx.I(int64(n)))
+			}
+			w.mu.Lock()
+			nst := w.stops
+			w.mu.Unlock()
+			r.composed = sx.String(sx.List(append([]sx.S{sx.Sym("composed")}, r.comp...)))
+			r.composedObs = sx.String(sx.L(sx.Sym("final"), sx.List(bs), sx.List(rs), sx.I(int64(nst))))
 		}
 	}
 	// teardown
